@@ -56,6 +56,14 @@ namespace gs
             }
         }
         Status feed(uint8_t c) override { return norm(r.newchar((char)c)); }
+        unsigned reinits_ = 0;
+        void reinit() override
+        {
+            if (reinits_++ & 1)
+                r.setbuf(buf_, cap_);
+            else
+                r.init(buf_, cap_);
+        }
         std::vector<uint8_t> packet() override
         {
             size_t n = r.size();
